@@ -54,6 +54,7 @@ type op struct {
 	k     key
 	v     int64
 	n     int
+	rel   bool // SM only: n is an offset from the target's Size() at the moment of the call (resolved when executed)
 	asc   bool
 	pairs []pairKV // PA, TO
 }
@@ -918,7 +919,7 @@ func parseLine(t *tdesc, l string) (op, bool) {
 
 func mutating(code string) bool {
 	switch code {
-	case "P", "U", "A", "AE", "R", "C", "SO", "PA", "TO", "PAF", "TOF", "PAW", "KAW":
+	case "P", "U", "A", "AE", "R", "C", "SO", "SM", "PA", "TO", "PAF", "TOF", "PAW", "KAW":
 		return true // (KAW does not mutate; it is followed by a dump because the caller writes the returned slices)
 	}
 	return false
@@ -1052,6 +1053,10 @@ func runImpl(t *tdesc, cs []ctor, ops []op, dumpEvery int, skip map[string]bool)
 				}
 				if o.src >= len(ms) {
 					o.src = 0
+				}
+				if o.code == "SM" && o.rel { // size-1 / size / size+1 of the container as it is now
+					sz, _ := strconv.Atoi(ms[o.t].exec(op{code: "SZ"}))
+					o.n, o.rel = sz+o.n, false
 				}
 				out := execOp(ms, o)
 				st := stepRes{line: t.line(o), o: o, out: out}
@@ -1501,6 +1506,7 @@ func genOps(t *tdesc, r *vh.Rng, avail []string, n int, nInst int) []op {
 		total += weights[a]
 	}
 	var vals []int64
+	putK := make([][]key, nInst) // keys put so far, per instance
 	ops := make([]op, 0, n)
 	readOnly := []string{"G", "CK", "SZ"}
 	for len(ops) < n {
@@ -1547,6 +1553,7 @@ func genOps(t *tdesc, r *vh.Rng, avail []string, n int, nInst int) []op {
 		case "P", "A", "AE", "U":
 			o.v = genVal(t, r)
 			vals = append(vals, o.v)
+			putK[o.t] = append(putK[o.t], o.k)
 		case "CV":
 			if len(vals) > 0 && r.Chance(70) {
 				o.v = vals[r.Intn(len(vals))]
@@ -1557,7 +1564,24 @@ func genOps(t *tdesc, r *vh.Rng, avail []string, n int, nInst int) []op {
 				o.v = 0
 			}
 		case "SM":
-			o.n = r.PickInt([]int{0, 1, 2, 3, 7, -1})
+			// a configuration call at any point of a history: no bound (0, negative), tiny bounds, bounds around the
+			// current size, and bounds above the table length of the default capacity
+			switch x := r.Intn(16); {
+			case x < 3:
+				o.n, o.rel = x-1, true // size-1, size, size+1
+			default:
+				o.n = r.PickInt([]int{0, -1, -1000, 1, 2, 3, 7, 75, 76, 77, 200, 1000, 100000})
+			}
+			ops = append(ops, o, op{code: "IF", t: o.t})
+			// … followed by lookups / removals / updates of keys inserted BEFORE the call
+			if ks := putK[o.t]; len(ks) > 0 {
+				for i, m := 0, 2+r.Intn(5); i < m; i++ {
+					c := []string{"G", "CK", "R", "P", "A", "AE", "G"}[r.Intn(7)]
+					ops = append(ops, op{code: c, t: o.t, k: ks[r.Intn(len(ks))], v: genVal(t, r)})
+				}
+				ops = append(ops, op{code: "SZ", t: o.t}, op{code: "IF", t: o.t})
+			}
+			continue
 		case "SO":
 			o.asc = r.Bool()
 		case "PA", "TO":
@@ -1592,6 +1616,53 @@ func genCtor(t *tdesc, r *vh.Rng, capOK map[int]bool) ctor {
 		c.lf = []float32{0.5, 0.75, 1, 4}[r.Intn(4)]
 	}
 	return c
+}
+
+// smValues: the bounds every configuration history goes through (relative ones are resolved against Size())
+var smValues = []op{{n: 0}, {n: -1}, {n: -1000}, {n: 1}, {n: -1, rel: true}, {n: 0, rel: true}, {n: 1, rel: true},
+	{n: 75}, {n: 76}, {n: 77}, {n: 200}, {n: 1000}}
+
+// genConfig (IntIntMap, the only plain type with a configuration setter): a populated map, ONE SetMax, then every
+// key inserted before the call is looked up, some are removed / updated / added to, fresh keys are inserted.
+func genConfig(t *tdesc, r *vh.Rng, pop int, sm op) []op {
+	var ops []op
+	var ks []key
+	seen := map[int64]bool{}
+	for i := 0; len(ks) < pop; i++ {
+		k := key{i: int64(int32(int64(i)*int64(r.PickInt([]int{1, 101, -203, 8344921})) - int64(r.Intn(3))))}
+		if seen[k.i] {
+			continue
+		}
+		seen[k.i] = true
+		ks = append(ks, k)
+		ops = append(ops, op{code: "P", k: k, v: genVal(t, r)})
+	}
+	sm.code = "SM"
+	ops = append(ops, sm, op{code: "SZ"}, op{code: "IF"})
+	for _, k := range ks {
+		ops = append(ops, op{code: []string{"G", "CK"}[r.Intn(2)], k: k})
+	}
+	for _, k := range ks {
+		switch r.Intn(6) {
+		case 0:
+			ops = append(ops, op{code: "R", k: k})
+		case 1:
+			ops = append(ops, op{code: "P", k: k, v: genVal(t, r)})
+		case 2:
+			ops = append(ops, op{code: "A", k: k, v: genVal(t, r)})
+		case 3:
+			ops = append(ops, op{code: "AE", k: k, v: genVal(t, r)})
+		}
+	}
+	ops = append(ops, op{code: "SZ"}, op{code: "IF"})
+	for i, m := 0, 1+r.Intn(4); i < m; i++ {
+		ops = append(ops, op{code: "P", k: key{i: int64(1<<20 + i)}, v: genVal(t, r)}, op{code: "IF"})
+	}
+	if r.Chance(30) {
+		ops = append(ops, op{code: "SO", asc: r.Bool()})
+	}
+	ops = append(ops, op{code: "SZ"}, op{code: "TS"})
+	return ops
 }
 
 func genGrowth(t *tdesc, r *vh.Rng, n int) []op {
@@ -1853,6 +1924,19 @@ func main() {
 			}
 			cs := genCtors(r)
 			jobs = append(jobs, job{cs, genOps(t, r, avail, n, len(cs)), de})
+		}
+		if t.name == "IntIntMap" { // configuration calls on populated maps (every bound of smValues, small and large populations)
+			for _, sm := range smValues {
+				for _, ps := range [][]int{{1, 2, 5}, {40, 60, 74}, {76, 90, 120}} {
+					r := rng.Fork()
+					c := genCtor(t, r, po.capOK)
+					if r.Chance(50) {
+						c = ctor{def: true}
+					}
+					jobs = append(jobs, job{[]ctor{c}, genConfig(t, r, r.PickInt(ps), sm), 8})
+					rep.Count("config-history")
+				}
+			}
 		}
 		for i := 0; i < growthPer; i++ {
 			r := rng.Fork()
